@@ -503,7 +503,7 @@ func (c *Cond) Signal() {
 
 // ---- runtime ----
 
-func Gosched() { point(KGosched); runtime.Gosched() }
+func Gosched() { point(KGosched); spinTick(); runtime.Gosched() }
 
 // ---- time ----
 
